@@ -17,8 +17,8 @@ import PharmpyModel.Core.Stmts
   values of its expressions.  `ofCore` embeds the shared `Stmt`.
 
   Encoding convention (harness/common/exprconv.py): applied functions such as
-  `A_CENTRAL(t)` are atoms whose name contains a parenthesis; for pharmpy they
-  are not symbols (`Expr.is_symbol()` is false), see `isPlainSym`.
+  `A_CENTRAL(t)` are atoms; pharmpy's `Expr.is_symbol()` is true for them too
+  (symengine `FunctionSymbol`), so `X = A_CENTRAL(t)` is an alias for cleanup_model.
 -/
 namespace Pharmpy.C07
 open Pharmpy
@@ -185,21 +185,15 @@ def mdLit (ss : List St) : List St :=
 
 /-! ### cleanup_model: inlining of `X = Y` assignments -/
 
-/-- `Expr.is_symbol()`: applied functions (`A_CENTRAL(t)`) are not symbols. -/
-def isPlainSym (y : Sym) : Bool := !y.toList.contains '('
-
 def inlineGo (cur : Sub) : List St → List St
   | [] => []
-  | .assign x (.sym y) :: rest =>
-    if isPlainSym y then inlineGo (cur.set x (.sym y)) rest     -- stored un-substituted, statement dropped
-    else (St.assign x (.sym y)).substAll cur :: inlineGo cur rest
+  | .assign x (.sym y) :: rest => inlineGo (cur.set x (.sym y)) rest     -- stored un-substituted, statement dropped
   | s :: rest => s.substAll cur :: inlineGo cur rest
 
 /-- The alias table at the end of the pass. -/
 def inlineFinal (cur : Sub) : List St → Sub
   | [] => cur
-  | .assign x (.sym y) :: rest =>
-    if isPlainSym y then inlineFinal (cur.set x (.sym y)) rest else inlineFinal cur rest
+  | .assign x (.sym y) :: rest => inlineFinal (cur.set x (.sym y)) rest
   | _ :: rest => inlineFinal cur rest
 
 def cleanupInline (ss : List St) : List St := inlineGo [] ss
@@ -209,9 +203,7 @@ def cleanupInline (ss : List St) : List St := inlineGo [] ss
     alias points to. -/
 def inlineSafe (cur : Sub) : List St → Bool
   | [] => true
-  | .assign x (.sym y) :: rest =>
-    if isPlainSym y then !cur.dom.contains y && inlineSafe (cur.set x (.sym y)) rest
-    else !cur.dom.contains x && !cur.rangeSyms.contains x && inlineSafe cur rest
+  | .assign x (.sym y) :: rest => !cur.dom.contains y && inlineSafe (cur.set x (.sym y)) rest
   | s :: rest =>
     s.defs.all (fun d => !cur.dom.contains d && !cur.rangeSyms.contains d) && inlineSafe cur rest
 
